@@ -95,7 +95,7 @@ func matchStatement(cur Statement, node ipld.Node) (_ matchResult, leafMost Stat
 			if res == nil { // optional selector didn't match
 				return matchResultOptionalNoData, nil
 			}
-			return boolToRes(datamodel.DeepEqual(s.value, res))
+			return boolToRes(deepEqual(s.value, res))
 		}
 	case KindGreaterThan:
 		if s, ok := cur.(equality); ok {
@@ -308,3 +308,52 @@ func gt(order int) bool  { return order == 1 }
 func gte(order int) bool { return order == 0 || order == 1 }
 func lt(order int) bool  { return order == -1 }
 func lte(order int) bool { return order == 0 || order == -1 }
+
+// deepEqual is datamodel.DeepEqual, except that maps are compared as
+// unordered collections: the order of a map's entries depends on who built
+// or encoded it (DAG-CBOR sorts keys, DAG-JSON and Go callers don't), and
+// must not decide whether two values are equal.
+func deepEqual(a, b ipld.Node) bool {
+	if a == nil || b == nil || a.Kind() != b.Kind() {
+		return datamodel.DeepEqual(a, b)
+	}
+
+	switch a.Kind() {
+	case datamodel.Kind_Map:
+		if a.Length() != b.Length() {
+			return false
+		}
+		for it := a.MapIterator(); !it.Done(); {
+			k, av, err := it.Next()
+			if err != nil {
+				return false
+			}
+			ks, err := k.AsString()
+			if err != nil {
+				return false
+			}
+			bv, err := b.LookupByString(ks)
+			if err != nil || !deepEqual(av, bv) {
+				return false
+			}
+		}
+		return true
+	case datamodel.Kind_List:
+		if a.Length() != b.Length() {
+			return false
+		}
+		for it := a.ListIterator(); !it.Done(); {
+			i, av, err := it.Next()
+			if err != nil {
+				return false
+			}
+			bv, err := b.LookupByIndex(i)
+			if err != nil || !deepEqual(av, bv) {
+				return false
+			}
+		}
+		return true
+	default:
+		return datamodel.DeepEqual(a, b)
+	}
+}
